@@ -88,7 +88,7 @@ def log_greedy_steps(log: list):
             before = text(top)
             p = path_of(op)
             rewriter.erase(op)
-            log.append(("dce", p, before, text(top)))
+            log.append(("dce", p, before, text(top), None))
             return
         if (getattr(self, "folding_enabled", False)
                 and op.has_trait(pr.HasFolder, value_if_unregistered=False)
@@ -101,14 +101,23 @@ def log_greedy_steps(log: list):
             if folded is not None:
                 folded_values, folded_ops = folded
                 rewriter.replace(op, new_ops=folded_ops, new_results=folded_values)
-                log.append(("fold", p, before, text(top)))
+                log.append(("fold", p, before, text(top), None))
                 return
         for pat in self.rewrite_patterns:
             before = text(top)
             p = path_of(op)
+            blk = op.parent_block()
+            ids_before = [id(o) for o in blk.ops] if blk is not None else None
             pat.match_and_rewrite(op, rewriter)
             if rewriter.has_done_action:
-                log.append((type(pat).__name__, p, before, text(top)))
+                # if the rewrite only reordered the ops of the matched op's block: after-position -> before-position
+                perm = None
+                if ids_before is not None and op.parent_block() is blk:
+                    ids_after = [id(o) for o in blk.ops]
+                    if sorted(ids_after) == sorted(ids_before):
+                        pos = {x: i for i, x in enumerate(ids_before)}
+                        perm = [pos[x] for x in ids_after]
+                log.append((type(pat).__name__, p, before, text(top), perm))
                 return
 
     pr.GreedyRewritePatternApplier.match_and_rewrite = wrapped
